@@ -184,8 +184,11 @@ int main(int argc, char** argv) {
                 rep.add("new_games_mid_history");
             }
             else { cmd("swap"); }
+            int v0 = rep.nViol;
             compare(g, M, hist);
-            if (rep.nViol > 10) break;
+            // after a disagreement engine and model are in different positions: formatting the model's next move in the engine's position
+            // is meaningless (and the engine's formatter need not terminate on a move that is not legal there), so the game ends here
+            if (rep.nViol > v0) break;
         }
         rep.add("games");
         rep.distinct.insert(fnv(hist));
